@@ -37,7 +37,14 @@ EXHAUSTIVE = {
 EXPLANATION = ('the two returned dictionaries are pinned uniquely by the property; the IMPLEMENTATION\'s dictionaries are compared '
                'with the Lean-side specification (Spec.describing / Spec.minimalDescribing evaluated by the driver), and with the '
                'code-shaped model; theorems Fca.C17.* prove model = spec for every list of genuine concepts with its true cover '
-               'relation (hypotheses are re-checked by the driver on every case: "hyp")')
+               'relation (hypotheses are re-checked by the driver on every case: "hyp"); many-valued (interval) cases: '
+               'Fca.C17.trace_mv_exact / trace_mv_bottom_minimal / trace_mv_keys prove model = spec for every list of genuine '
+               'PATTERN concepts (description = intention_i(extent): per-column interval hull, None for the empty extent; '
+               'extent = extension_i(description)) of an interval training context and every well-formed traced interval '
+               'context with as many columns - upward inheritance of satisfaction is PROVED for them (Fca.Trace.upward_mv), '
+               'and the driver decides these hypotheses (Spec.IsMVTraceLatticeOf w.r.t. the training context, '
+               'Spec.IsTracedMVCtx: "hypfull") on every many-valued case; a library-built, unmutated lattice that fails '
+               'them is reported')
 ASSUMPTIONS = ['a history step that itself raises is skipped and recorded (hist-note:*): mutating the lattice is C09-C12\'s '
                'business, here only the tracing that follows is judged',
                'object names of the traced context pairwise distinct (dictionary keys); they may coincide with the training '
@@ -45,9 +52,12 @@ ASSUMPTIONS = ['a history step that itself raises is skipped and recorded (hist-
                'the lattice object was produced by the library from one training context (its concepts/children_dict are read '
                'from the real object and checked against IsLatticeOf by the driver on every case)',
                'use_generators=False (the generator mode belongs to C20)',
-               'many-valued contexts: integer-valued interval data (exact in float)']
+               'many-valued contexts: integer-valued interval data (exact in float); interval pattern structures only '
+               '(IntervalPS / IntervalNumpyPS) - SetPS / AttributePS columns are outside the model and the theorems']
 TRUSTED = ['extraction of the lattice data (extent_i, intent_i, children_dict, support, top, is_monotone) from the real object',
-           'MV: upward inheritance of satisfaction is a hypothesis of trace_any_context_partial, checked per case by the driver']
+           'MV: extraction of the training interval table handed to the driver for IsMVTraceLatticeOf (the harness\'s own '
+           'training data, not read back from the lattice object); upward inheritance of satisfaction is no longer trusted: '
+           'it is a theorem (upward_mv) and is still re-checked per case by the driver (upwardB, part of "hyp")']
 CHUNK = 1000
 REQUESTS_NEED_IMPL = True      # history cases: the lattice data is read from the object the implementation side built
 
@@ -755,7 +765,10 @@ def requests(c, io=None):
     if c['kind'] == 'mv':
         ncols = len(c['test'][0])
         cols = [[_interval(row[j]) for row in c['test']] for j in range(ncols)]
-        d.update(op='C17.tracemv', cols=cols, n=len(c['test']), names=_test_names(c), useidx=c['useidx'])
+        # the training context: the driver decides IsMVTraceLatticeOf (hypothesis of Fca.C17.trace_mv_*) on the lattice
+        tcols = [[_interval(row[j]) for row in c['train']] for j in range(len(c['train'][0]))]
+        d.update(op='C17.tracemv', cols=cols, n=len(c['test']), names=_test_names(c), useidx=c['useidx'],
+                 tcols=tcols, tn=len(c['train']))
         return [d]
     tr = _train_rows(c)
     d.update(op='C17.trace', be=SHORT[c['be']], trows=tr, tw=len(tr[0]),
@@ -791,6 +804,17 @@ def judge(c, io, rep):
         return dict(ok=False, kind='property', detail=f'traced concepts {tv}, describing concepts are {spec["traced"]}')
     if bv != spec['bottom']:
         return dict(ok=False, kind='property', detail=f'bottom concepts {bv}, minimal describing concepts are {spec["bottom"]}')
+    if r.get('hypfull') is True and not r['hyp']:
+        return dict(ok=False, kind='harness', detail='the lattice is a list of genuine pattern concepts of the training '
+                    'context (IsMVTraceLatticeOf) but upward inheritance / order data fail on the traced context '
+                    '(contradicts Fca.Trace.upward_mv)')
+    if r.get('hypfull') is False and c['lat'][0] != 'hist':
+        # a lattice the library built from ONE training context without any later mutation: its concepts must be genuine
+        # pattern concepts in the sense of Spec.IsPatternConcept (description = intention_i(extent), extent = extension_i)
+        return dict(ok=False, kind='correspondence',
+                    detail='the lattice built by the library is not a list of genuine pattern concepts with true covers '
+                           '(Spec.IsMVTraceLatticeOf or Spec.IsTracedMVCtx is false): the hypotheses of '
+                           'Fca.C17.trace_mv_exact do not cover this case')
     if r['hyp']:
         if 'err' in model or _split(model['bottom'])[1] != spec['bottom'] or _split(model['traced'])[1] != spec['traced'] \
                 or _split(model['bottom'])[0] != spec['keys'] or _split(model['traced'])[0] != spec['keys']:
@@ -839,6 +863,8 @@ def branch(c, io, rep):
                + (':default' if c.get('names') is None else ''))
     if c['lat'][0] != 'mono':
         out.append('hyp:' + str(r.get('hyp')))
+        if c['kind'] == 'mv':
+            out.append('hypfull:' + str(r.get('hypfull')))
         if 'traced' in io:
             nvis = len({i for _, v in io['traced'] for i in v})
             out.append('described-concepts:%s' % ('0' if nvis == 0 else '1' if nvis == 1 else 'many'))
